@@ -5,7 +5,7 @@
    (equal model content ids => equal observed values, threaded through the whole run: a restored cell carries the
    content id of the saved cell, so the implementation must have restored exactly the saved value), index, label,
    architecture ids, optimizer <-> parameter identity, lr, hyper-parameter values, block sizes.
-   In addition: every saved agent must satisfy the side conditions of the theorems ([savable], [share_savedb]), every
+   In addition: the lr of EVERY param_group of every optimizer equals the model's lr of that optimizer ([lrs_ok]); every saved agent must satisfy the side conditions of the theorems ([savable], [share_savedb]), every
    load_checkpoint must pass the registry comparison, the real network / optimizer names must pass [prefix_ok],
    and the initial world must be separated ([sep_b]). *)
 From Coq Require Import List NArith QArith Bool FMapPositive.
@@ -26,29 +26,34 @@ Definition pre_ok (c : cworld) (o : cop) : bool :=
   | CEvo _ => true
   end.
 
-Fixpoint ccheck_steps (c : cworld) (ops : list cop) (os : list obs) (m : PositiveMap.t N) : bool :=
-  match ops, os with
-  | [], [] => true
-  | o :: r, ob :: obr =>
+(* every param_group of every optimizer of every member trains at the learning rate the model holds for that optimizer
+   (Evo's [state_ok] compares the first group only); t = per member, per optimizer, the lr of each param_group *)
+Definition lrs_ok (w : world) (t : list (list (list Q))) : bool :=
+  list_eqb (fun a ta => list_eqb (fun o lo => forallb (Qeq_bool (o_lr o)) lo) (a_opts a) ta) (w_pop w) t.
+
+Fixpoint ccheck_steps (c : cworld) (ops : list cop) (os : list obs) (ls : list (list (list (list Q)))) (m : PositiveMap.t N) : bool :=
+  match ops, os, ls with
+  | [], [], [] => true
+  | o :: r, ob :: obr, lt :: lr =>
       if pre_ok c o then
         let c' := cstep c o in
         match state_ok (cw c') ob m with
-        | Some m' => ccheck_steps c' r obr m'
+        | Some m' => if lrs_ok (cw c') lt then ccheck_steps c' r obr lr m' else false
         | None => false
         end
       else false
-  | _, _ => false
+  | _, _, _ => false
   end.
 
-Definition ccheck_run (w : world) (ops : list cop) (os : list obs) (nets opts : list str) : bool :=
-  match os with
-  | [] => false
-  | o0 :: r =>
-      prefix_ok nets opts && sep_b w &&
+Definition ccheck_run (w : world) (ops : list cop) (os : list obs) (ls : list (list (list (list Q)))) (nets opts : list str) : bool :=
+  match os, ls with
+  | o0 :: r, l0 :: lr =>
+      prefix_ok nets opts && sep_b w && lrs_ok w l0 &&
       match state_ok w o0 (PositiveMap.empty N) with
-      | Some m => ccheck_steps (mkCW w []) ops r m
+      | Some m => ccheck_steps (mkCW w []) ops r lr m
       | None => false
       end
+  | _, _ => false
   end.
 
 (* index of the first state on which model and implementation disagree (diagnostics only) *)
